@@ -316,9 +316,17 @@ func StressV2(seed int64, dur time.Duration) (panics int64) {
 		WithMaxOperationTime(20 * time.Millisecond).WithPauseTime(3 * time.Millisecond).WithMaxConcurrentBatches(3).
 		WithErrorOnFullBuffer().WithEmitBatch()
 	var np atomic.Int64
+	var nretry atomic.Int64
 	w := b2.NewWatcher(func(batch []b2.Operation) {
 		if len(batch) > 0 && batch[0].Cost()%5 == 0 {
 			bat.Pause()
+		}
+		// a callback that looks at its operations and retries some of them (the usual way to use MaxAttempts)
+		for _, op := range batch {
+			_, _, _ = op.Payload(), op.IsBatchable(), op.Watcher()
+			if op.Attempt() < 3 && op.Cost()%3 == 1 && nretry.Add(1)%2 == 0 {
+				_ = bat.Enqueue(op)
+			}
 		}
 		time.Sleep(time.Duration(len(batch)) * 100 * time.Microsecond)
 	}).WithMaxBatchSize(4).WithMaxAttempts(3)
@@ -387,7 +395,17 @@ func StressV1(seed int64, dur time.Duration) (panics int64) {
 		WithCapacityInterval(3 * time.Millisecond).WithAuditInterval(7 * time.Millisecond).
 		WithMaxOperationTime(20 * time.Millisecond).WithPauseTime(3 * time.Millisecond).WithErrorOnFullBuffer().WithEmitBatch()
 	var np atomic.Int64
+	var nretry atomic.Int64
 	w := b1.NewWatcher(func(batch []b1.IOperation) {
+		for _, op := range batch {
+			_, _, _ = op.Payload(), op.IsBatchable(), op.Watcher()
+			if op.Attempt() < 3 && op.Cost()%3 == 1 && nretry.Add(1)%2 == 0 {
+				func() {
+					defer func() { recover() }() // v1: Enqueue after Stop panics (known finding D2)
+					_ = bat.Enqueue(op)
+				}()
+			}
+		}
 		time.Sleep(time.Duration(len(batch)) * 100 * time.Microsecond)
 	}).WithMaxBatchSize(4).WithMaxAttempts(3)
 	bat.Start()
